@@ -44,10 +44,11 @@ func (in *Interp) blobLen(s SliceVal) int {
 }
 
 // ---- exact dyadic-rational floats ----
-// A symbolic float64 is kept as num/Den with Den a power of two, but only while the value
-// is exactly representable as a double (|num| < 2^53): then IEEE arithmetic on it is exact
-// and integer reasoning decides comparisons. Any operation whose result might need rounding
-// ends the path as unsupported (the harness bounds its inputs so that this cannot happen).
+// A symbolic float64 is kept as num/Den with Den a power of two; the value is always exactly
+// a double. Results of + - * are computed exactly and then rounded to nearest-even by
+// exactFloat (a fork per binade when rounding is possible), so IEEE double arithmetic is
+// followed bit for bit and integer reasoning decides comparisons. Division, NaN/Inf,
+// subnormals and negative rounded results are unsupported.
 
 var two53 = pow2(53)
 
@@ -83,14 +84,48 @@ func (in *Interp) ratOf(x FloatVal) (num *sym.Term, den *big.Int) {
 	return in.F.BigInt(m), pow2(uint(-e))
 }
 
+// exactFloat returns the float64 nearest to num/den (den a power of two), i.e. the IEEE
+// result of the operation that produced the exact value num/den. While |num| < 2^53 the value
+// is representable and nothing is rounded. Otherwise the path forks over the binade of num
+// (its bit length k, bounded by the term's interval) and rounds to 53 significant bits,
+// ties to even: q = num div 2^s, r = num mod 2^s, s = k-53; q+1 iff r > 2^(s-1) or
+// (r = 2^(s-1) and q odd). Negative values that need rounding are unsupported (not needed).
 func (in *Interp) exactFloat(num *sym.Term, den *big.Int) FloatVal {
 	f := in.F
 	lim := f.BigInt(two53)
 	tooBig := f.Or(f.Ge(num, lim), f.Le(num, f.Neg(lim)))
-	if in.Branch(tooBig) {
-		in.fail("unsupported", "float64 result may need rounding (outside the exact range of the dyadic model); bound the harness inputs")
+	if !in.Branch(tooBig) {
+		return FloatVal{T: num, Den: den}
 	}
-	return FloatVal{T: num, Den: den}
+	if in.Branch(f.Lt(num, f.Int(0))) {
+		in.fail("unsupported", "negative float64 result needs rounding (not modelled)")
+	}
+	if num.Hi == nil {
+		in.fail("unsupported", "float64 result of unbounded magnitude needs rounding; bound the harness inputs")
+	}
+	maxk := num.Hi.BitLen()
+	for k := 54; k <= maxk; k++ {
+		if k < maxk && !in.Branch(f.Lt(num, f.BigInt(pow2(uint(k))))) {
+			continue
+		}
+		s := uint(k - 53)
+		ps := f.BigInt(pow2(s))
+		q := f.Div(num, ps)
+		r := f.Mod(num, ps)
+		half := f.BigInt(pow2(s - 1))
+		odd := f.Eq(f.Mod(q, f.Int(2)), f.Int(1))
+		up := f.Or(f.Gt(r, half), f.And(f.Eq(r, half), odd))
+		rq := f.Add(q, f.Ite(up, f.Int(1), f.Int(0)))
+		// value = rq * 2^s / den
+		d := new(big.Int).Set(den)
+		sc := pow2(s)
+		g := new(big.Int).GCD(nil, nil, d, sc)
+		d.Quo(d, g)
+		sc.Quo(sc, g)
+		return FloatVal{T: f.Mul(rq, f.BigInt(sc)), Den: d}
+	}
+	in.fail("unsupported", "float rounding: binade not found")
+	return FloatVal{}
 }
 
 func (in *Interp) fpBinop(op token.Token, x, y FloatVal) Value {
